@@ -1,7 +1,7 @@
 (* C13 — property theorems only. Each is closed by [exact] of a lemma proved in C13/Proofs*.v. *)
 From Coq Require Import List Arith Bool.
 Import ListNotations.
-From AgileV Require Import C13.Model C13.Proofs C13.ProofsInv C13.ProofsSurface.
+From AgileV Require Import C13.Model C13.Proofs C13.ProofsInv C13.ProofsSurface C13.ProofsGenuine.
 
 (* Misuse — waiting without a pending call, a second call (or set_attr) while one is pending, any call after
    close() — returns the documented error and leaves the whole state (parent and workers) unchanged,
@@ -100,6 +100,15 @@ Theorem forbidden_call_surfaces : forall fin e,
 Proof. exact forbidden_call_surfaces_lemma. Qed.
 Print Assumptions forbidden_call_surfaces.
 
+(* ... and conversely, in EVERY run (any calls, misuse, stale answers, kills, wake-ups, any plans): an exception type that
+   any call re-raises was raised by some sub-environment according to its plan, or is the workers' own ValueError
+   (type 0) for a forbidden remote call — no invented or mixed-up types. *)
+Theorem exception_is_genuine : forall plans ops x,
+  In (Exc x) (fst (run (init plans) ops)) ->
+  x = EValueError \/ exists p n, In p plans /\ p n = Raise x.
+Proof. exact exception_is_genuine_lemma. Qed.
+Print Assumptions exception_is_genuine.
+
 (* A sub-environment that sleeps past a finite timeout: the wait reports Timeout (and resets the state). *)
 Theorem timeout_reported : forall k e,
   clean e -> Exists (fun w => next w = Sleep) (ws e) ->
@@ -107,6 +116,14 @@ Theorem timeout_reported : forall k e,
   let r := wait k true (snd (async k e)) in fst r = Timeout /\ st (snd r) = DEFAULT /\ closed (snd r) = false.
 Proof. exact timeout_reported_lemma. Qed.
 Print Assumptions timeout_reported.
+
+(* The timeout path of a wait changes nothing but the state: it happens only with a finite timeout and an unreadable
+   pipe, and every queued answer stays where it was (the cause of the separately reported stale-answers clause). *)
+Theorem timeout_only_resets_state : forall fin e,
+  fst (wait_core fin e) = Timeout ->
+  snd (wait_core fin e) = mkE DEFAULT (closed e) (ws e) (eq e) (got e) /\ fin = true /\ poll_all (ws e) = false.
+Proof. exact timeout_only_resets_state_lemma. Qed.
+Print Assumptions timeout_only_resets_state.
 
 (* close() is total (current tree, with 3d4be93 and 8e80bc4): from every state reachable from a fresh environment
    by ANY sequence of interface calls (legal or misuse), harness kills and wake-ups, under ANY fault plans of any
